@@ -1203,6 +1203,15 @@ func Gen(t *rapid.T, off Off) Prog {
 		g.line("\tB string")
 		g.line("}")
 		g.line("")
+		// package-level aggregates: their fields and elements are assigned in place (extras.go)
+		g.line("type W0 struct {")
+		g.line("\tIn  S0")
+		g.line("\tArr [2]S0")
+		g.line("}")
+		g.line("")
+		g.line("var gW W0")
+		g.line("var gArr [2]S0")
+		g.line("")
 	}
 	// package-level variables (initialised in dependency order by the language)
 	g.push()
